@@ -273,6 +273,27 @@ private:
   int temporality_;
 };
 
+// Stub exporter of the real PeriodicExportingMetricReader stratum: every Export is one
+// collection of reader 0. The collection behind export k began after export k-1 was entered
+// (cycles are sequential on the reader's worker), which gives a sound window.
+class CaptureMetricExporter final : public sdkmet::PushMetricExporter
+{
+public:
+  explicit CaptureMetricExporter(int temporality) : temporality_(temporality) {}
+  sdkcommon::ExportResult Export(const sdkmet::ResourceMetrics &rm) noexcept override;
+  sdkmet::AggregationTemporality GetAggregationTemporality(
+      sdkmet::InstrumentType) const noexcept override
+  {
+    return temporality_ ? sdkmet::AggregationTemporality::kCumulative
+                        : sdkmet::AggregationTemporality::kDelta;
+  }
+  bool ForceFlush(std::chrono::microseconds) noexcept override { return true; }
+  bool Shutdown(std::chrono::microseconds) noexcept override { return true; }
+
+private:
+  int temporality_;
+};
+
 struct Handle
 {
   nostd::unique_ptr<metrics_api::Counter<uint64_t>> cl;
@@ -307,10 +328,27 @@ struct World
   std::unique_ptr<sdkmet::SyncMetricStorage> storage;
   std::vector<std::shared_ptr<sdkmet::CollectorHandle>> direct_collectors;
   std::unique_ptr<sdkmet::AttributesProcessor> direct_proc;
+  size_t last_export_at = 0;  // periodic stratum
   // collections of different readers are serialised by the SDK (MeterContext::meter_lock_ is
   // held across Meter::Collect); the direct-storage stratum reproduces that
   std::mutex collect_m;
 };
+
+sdkcommon::ExportResult CaptureMetricExporter::Export(const sdkmet::ResourceMetrics &rm) noexcept
+{
+  World &w = *W;
+  Collection c;
+  c.reader = 0;
+  c.number = w.col_count[0]++;
+  c.inv    = w.last_export_at;
+  ev(E_COL_RET, 0, c.number);
+  c.ret            = hist().size() - 1;
+  w.last_export_at = c.ret;
+  capture(rm, c);
+  w.collections.push_back(c);
+  vsim::yield();
+  return sdkcommon::ExportResult::kSuccess;
+}
 
 std::string instr_name(int i)
 {
@@ -461,6 +499,13 @@ void do_add(World &w, int task, const Op &op)
 
 void do_collect(World &w, int r)
 {
+  if (r == 0 && w.c->knob("periodic", 0))
+  {
+    // reader 0 is a real periodic reader: a collection cycle is forced through ForceFlush
+    InOp io;
+    w.readers[0]->ForceFlush(std::chrono::microseconds(60000000));
+    return;
+  }
   Collection c;
   c.reader = r;
   c.number = w.col_count[r]++;
@@ -621,8 +666,19 @@ void body(const Case &c)
     }
     for (int r = 0; r < nread; ++r)
     {
-      std::shared_ptr<sdkmet::MetricReader> rd(
-          new PullReader((int)c.knob(fmt("temp%d", r).c_str(), 0)));
+      std::shared_ptr<sdkmet::MetricReader> rd;
+      if (r == 0 && c.knob("periodic", 0))
+      {
+        sdkmet::PeriodicExportingMetricReaderOptions o;
+        o.export_interval_millis = std::chrono::milliseconds(60000);
+        o.export_timeout_millis  = std::chrono::milliseconds(30000);
+        rd.reset(new sdkmet::PeriodicExportingMetricReader(
+            std::unique_ptr<sdkmet::PushMetricExporter>(
+                new CaptureMetricExporter((int)c.knob("temp0", 0))),
+            o));
+      }
+      else
+        rd.reset(new PullReader((int)c.knob(fmt("temp%d", r).c_str(), 0)));
       w.readers.push_back(rd);
       w.prov->AddMetricReader(rd);
     }
@@ -1156,6 +1212,11 @@ void generate(const std::string &prop, Rng &wl, Rng &fl, Case &c)
   bool dup = prop == "C06" && !direct && wl.chance(0.1);
   if (dup)
     stratum = "duplicate_handle";
+  if (!direct && !dup && prop != "C08" && wl.chance(0.2))
+  {
+    c.set("periodic", 1);
+    stratum += "_periodic";
+  }
   // recorder tasks
   int nrec = (int)wl.range(1, 2);
   std::vector<int> next_digit(ninstr, 0);
@@ -1242,6 +1303,7 @@ const char *const kReal[] = {"sdk/metrics/meter_provider.cc, meter_context.cc, m
                              "sdk/metrics/view/* (registry, selectors, attribute processors)",
                              "api/common/spin_lock_mutex.h", nullptr};
 const char *const kStub[] = {"pull MetricReader (Collect called from simulated collector tasks)",
+                             "PushMetricExporter behind a real PeriodicExportingMetricReader (20% of C06/C07 runs)",
                              "CollectorHandle stubs for the direct SyncMetricStorage stratum", nullptr};
 }  // namespace
 
